@@ -193,4 +193,5 @@ def model_line(api, segs, http_par=None, hints="", concurrency=b"2"):
         return "scgi " + hs
     if api == "fastcgi":
         return f"fastcgi {hx(concurrency)} " + hs
+    http_par = http_par or [b"?", b"?", b"?", b"?"]
     return "http " + " ".join(hx(x) for x in http_par) + " " + (hints or "-") + " " + hs
